@@ -527,3 +527,46 @@ class DeblendMachine(Machine):
             p = dict(plan)
             p['scene'] = {**sc, 'labels': None}
             yield p
+
+
+def real_pool_fidelity(base_seed, nscenes=3):
+    """Thorough tier only: run a few scenes through the *real* spawn pool
+    (OS-chosen schedule) and compare with the serial path.  The property says
+    the result is the same for every schedule, so the comparison is sound; it
+    validates that the simulated executor is a faithful stand-in.
+
+    Returns (n_compared, list of mismatch descriptions).
+    """
+    from photutils.segmentation import SegmentationImage, deblend_sources
+    from simphot.kernel import Rng, derive
+    m = DeblendMachine()
+    done, bad = 0, []
+    i = 0
+    while done < nscenes and i < 200:
+        seed = derive(base_seed, 'C06-fidelity', i)
+        i += 1
+        rng = Rng(seed)
+        cfg = m.make_cfg(rng.sub('cfg'), set())
+        if cfg['entry'] != 'deblend' or cfg['contrast'] == 1:
+            continue
+        sc = m.make_scene(rng.sub('scene'), cfg)
+        arr = dec(sc['segm'])
+        data = dec(sc['data'])
+        if len(_labels_of(arr)) < 3:
+            continue
+        kw = dict(labels=sc.get('labels'), nlevels=cfg['nlevels'],
+                  contrast=cfg['contrast'], mode=cfg['mode'],
+                  connectivity=cfg['connectivity'], relabel=cfg['relabel'],
+                  progress_bar=False)
+        ser = DeblendMachine._observe(call(
+            deblend_sources, data, SegmentationImage(arr.copy()),
+            cfg['npixels'], nproc=1, **kw))
+        for nproc in (2, 4):
+            par = DeblendMachine._observe(call(
+                deblend_sources, data, SegmentationImage(arr.copy()),
+                cfg['npixels'], nproc=nproc, **kw))
+            d = diff(par, ser)
+            if d:
+                bad.append(f'seed {seed} nproc={nproc}: {d[:300]}')
+        done += 1
+    return done, bad
